@@ -131,13 +131,13 @@ def generate(seed, tier, index, focus):
     steps = []
     if level == 1:
         for _ in range(rng.randint(0, 3)):
-            steps.append({"op": "reg_dev", "name": rng.choice(["A", "B", "*"]), "kind": rng.choice(["rec", "rec", "both", "driver", "raiser", "reactor", "reactor"])})
+            steps.append({"op": "reg_dev", "name": rng.choice(["A", "B", "*"]), "kind": rng.choice(["rec", "rec", "both", "driver", "driver_dyn", "raiser", "reactor", "reactor"])})
         for _ in range(rng.randint(0, 3)):
             steps.append({"op": "reg_cli"})
         for _ in range(n):
             r = rng.random()
             if r < 0.06:
-                steps.append({"op": "reg_dev", "name": rng.choice(["A", "B", "*"]), "kind": rng.choice(["rec", "rec", "both", "driver", "reactor"])})
+                steps.append({"op": "reg_dev", "name": rng.choice(["A", "B", "*"]), "kind": rng.choice(["rec", "rec", "both", "driver", "driver_dyn", "reactor"])})
             elif r < 0.14:
                 steps.append({"op": "reg_cli"})
             elif r < 0.2:
@@ -351,10 +351,19 @@ def execute_level1(scen):
 
     def add_device(name, kind):
         did = f"d{len(devices)}"
-        if kind == "driver":
+        if kind in ("driver", "driver_dyn"):
             cls = _driver_class()
             dname = "A" if name == "*" else name
-            d = cls(name=dname, router=None)
+            if kind == "driver_dyn":
+                # a driver whose public name is computed (overridden `name` property, e.g. from a serial number) rather
+                # than passed to the constructor: the name it advertises is the name it answers to
+                cls = type("DynNameDrv", (cls,), {"name": property(lambda self: self._dyn_name)})
+                d = cls.__new__(cls)
+                d._dyn_name = dname
+                cls.__init__(d, router=None)
+                chk.probe("driver_with_computed_name")
+            else:
+                d = cls(name=dname, router=None)
             d._router = router
             router.register_device(d)
             orig = d.message_from_client
